@@ -15,5 +15,6 @@ extern "C" __attribute__((used, visibility("default"))) const char *__ubsan_defa
 int main(int argc, char **argv)
 {
 	setvbuf(stdout, nullptr, _IOLBF, 0);
+	setenv("LOCPATH", "/verif/build/locale", 0); // synthesized comma-decimal locale (locale/build_locale.sh)
 	return driver_main(argc, argv);
 }
